@@ -164,6 +164,7 @@ extern "C" int LLVMFuzzerTestOneInput(const uint8_t *data, size_t size) {
   Src s(data, size);
   const bool k_ptr = verif_known("C35/ptr-offset-ge-16384");
   const bool k_oversize = verif_known("C35/oversize-rdata-accepted");
+  const bool k_term = verif_known("asan:stack-buffer-overflow@dnsname_to_labels");
   const bool k_assert = verif_known("assert:server_send_response:req->response_len_<=_65535");
 
   bool tcp = s.below(3) == 1;
@@ -245,24 +246,33 @@ extern "C" int LLVMFuzzerTestOneInput(const uint8_t *data, size_t size) {
       plan.push_back(r);
     }
   }
-  // ---- known finding C35/ptr-offset-ge-16384: a name must not occur for the first time at an offset >= 16384 (and be used again).
-  // Excluded by construction: in emission order, once the uncompressed size passes 16384 - 600, only name strings already used are kept.
-  if (k_ptr) {
+  // ---- known findings excluded by construction, walking the plan in emission order with the uncompressed size as (upper bound of the) offset:
+  //  * C35/ptr-offset-ge-16384: a name must not occur for the first time at an offset >= 16384 (and be used again): once the offset may have
+  //    passed 16384 - 600, only name strings already used are kept;
+  //  * asan:stack-buffer-overflow@dnsname_to_labels: no name may end exactly at the end of the 64 KiB build buffer: once the offset may have
+  //    passed 65536 - 600, owners and rdata names become "." (the root is written by a separate, bounds-checked branch).
+  if (k_ptr || k_term) {
     std::set<std::string> old; for (auto &q : qs.q) old.insert(join(q.name));
     size_t off = 12; for (auto &q : qs.q) off += wire_len(q.name) + 4;
-    bool narrowed = false; std::string repl = join(qs.q[0].name);
+    bool narrowed_ptr = false, narrowed_term = false; std::string repl = join(qs.q[0].name);
     for (int sec = 0; sec < 3; sec++) {
-      if (sec == 2) off += 11;      // room for the server's own OPT
+      if (sec == 2) off += 12;      // room for the server's own OPT
       for (auto &r : plan) { if (r.section != sec || r.oversize) continue;
-        std::string tmp; const std::string &own = owner_string(r, tmp);
-        if (off >= 16384 - 600) {
-          if (!old.count(own)) { if (r.api == API_PTR_IN) r.api = API_PTR_NAME; r.name = repl; narrowed = true; }
-          if (rec_is_name(r) && !old.count(r.target)) { r.target = repl; narrowed = true; }
-        } else { old.insert(own); if (rec_is_name(r)) old.insert(r.target); }
+        if (k_term && off >= 65536 - 600) {
+          std::string tmp; if (owner_string(r, tmp) != ".") { if (r.api == API_PTR_IN) r.api = API_PTR_NAME; r.name = "."; narrowed_term = true; }
+          if (rec_is_name(r) && r.target != ".") { r.target = "."; narrowed_term = true; }
+        } else if (k_ptr) {
+          std::string tmp; const std::string &own = owner_string(r, tmp);
+          if (off >= 16384 - 600) {
+            if (!old.count(own)) { if (r.api == API_PTR_IN) r.api = API_PTR_NAME; r.name = repl; narrowed_ptr = true; }
+            if (rec_is_name(r) && !old.count(r.target)) { r.target = repl; narrowed_ptr = true; }
+          } else { old.insert(own); if (rec_is_name(r)) old.insert(r.target); }
+        }
         off += xrec_size(xrec_of(r));
       }
     }
-    if (narrowed) verif_known_skipped("C35/ptr-offset-ge-16384");
+    if (narrowed_ptr) verif_known_skipped("C35/ptr-offset-ge-16384");
+    if (narrowed_term) verif_known_skipped("asan:stack-buffer-overflow@dnsname_to_labels");
   }
   static const int RC[] = {0, 0, 0, 3, 2, 5, 15};
   Ctx c; c.plan = &plan; c.rcode = RC[s.below(7)]; c.aa = rare(s, 1, 4);
